@@ -66,6 +66,9 @@ func loopsContaining(fn *ssa.Function, pred func(ssa.Instruction) bool) []*Loop 
 
 func runC13(c *Ctx) {
 	p := c.P
+	// a debit exists exactly for the inputs that spend wallet credits: the loop that records them looks at every input
+	runLoopCompletenessN(c, "C13-R2", []string{"updateMinedBalance"}, 1)
+	checkScriptFetchKeyAndIndexAgree(c, "C13-R1")
 	mined := wtxFn(c, "C13-R1", "minedTxDetails")
 	unmined := wtxFn(c, "C13-R1", "unminedTxDetails")
 	if mined != nil && unmined != nil {
@@ -504,4 +507,61 @@ func runFlagTyping(c *Ctx, rule string) {
 		}
 	}
 	c.Floor(rule, "flag sinks checked", n, 4)
+}
+
+// checkScriptFetchKeyAndIndexAgree: a previous output is named by (transaction record, output index). Wherever the
+// script of a previous output is fetched, the record key and the index handed to the fetcher are taken from ONE source:
+// the same credit key (extract...TxRecordKey(x) with extract...Index(x)) or the same outpoint (p.Hash with p.Index).
+// A debit's own key has the credit-key layout too, but its trailing index is the spending input's position: reading the
+// index from it returns the script of another output of the previous transaction — for confirmed transactions only.
+func checkScriptFetchKeyAndIndexAgree(c *Ctx, rule string) {
+	p := c.P
+	n := 0
+	source := func(v ssa.Value) (ssa.Value, string) {
+		for _, o := range (&Slicer{P: p}).Origins(v) {
+			if call, ok := o.(*ssa.Call); ok {
+				nm := calleeShort(&call.Call)
+				if strings.HasPrefix(nm, "extractRawCredit") && len(call.Call.Args) == 1 {
+					return stripConv(call.Call.Args[0]), "key"
+				}
+			}
+			if _, f, base, ok := fieldOf(o); ok && (f == "Hash" || f == "Index") {
+				return stripConv(base), "outpoint"
+			}
+			if fa, ok := o.(*ssa.FieldAddr); ok {
+				if _, f := fieldAddrName(fa); f == "Hash" || f == "Index" {
+					return stripConv(fa.X), "outpoint"
+				}
+			}
+		}
+		return nil, ""
+	}
+	for _, fn := range p.FuncsIn("wtxmgr") {
+		for _, call := range callsNamed(fn, "fetchRawTxRecordPkScript") {
+			if len(call.Call.Args) != 3 {
+				continue
+			}
+			n++
+			ks, kk := source(call.Call.Args[0])
+			is, ik := source(call.Call.Args[2])
+			ok := ks != nil && is != nil && kk == ik && ks == is
+			// a credit key that was looked up BY the outpoint (existsUnspent(ns, p)) names p's output
+			if !ok && kk == "key" && ik == "outpoint" {
+				for _, o := range (&Slicer{P: p, KeepExtract: true}).Origins(ks) {
+					if ex, isEx := o.(*ssa.Extract); isEx {
+						if lc, isCall := ex.Tuple.(*ssa.Call); isCall {
+							for _, a := range lc.Call.Args {
+								if stripConv(a) == is {
+									ok = true
+								}
+							}
+						}
+					}
+				}
+			}
+			c.Check(rule, "script-fetch-key-and-index-from-one-source:"+fnName(fn), call.Pos(), ok,
+				fnName(fn)+" fetches a previous output's script with a record key and an output index that do not come from the same credit key / outpoint: for a confirmed transaction whose input position differs from the index of the output it spends, the script of the wrong output is returned")
+		}
+	}
+	c.Floor(rule, "previous-output script fetches", n, 3)
 }
